@@ -20,6 +20,9 @@
 (* suffix array n-1..0 is known in closed form, MC lemma UnaryLemma):          *)
 (*   sample_unary      {k,s,rows}   -> len,vals  vals[j] = get(rows[j]) must   *)
 (*                                           be n-1-rows[j], len = n           *)
+(* run.cfg = [kind = "zigzag", m] (integer text 2m,1,2m-1,2,...,m+1,m,0; all   *)
+(* symbols distinct, so the suffix array is the inverse permutation):          *)
+(*   suffix_array_zigzag {w}        -> sa    sa[v] = position of value v        *)
 (* `sa` arguments are the array returned (and validated) by the first event.  *)
 (* Explains = the property (REJECT when false).  Exact = conformance with the *)
 (* machine layer: the code's concrete sentinel order (reverse text order,     *)
@@ -45,6 +48,10 @@ Explains(cfg, e) ==
               /\ \A j \in 1..Len(c.a.rows) :
                     /\ c.a.rows[j] \in 0..(cfg.n - 1)
                     /\ r.vals[j] = cfg.n - 1 - c.a.rows[j]              \* = UnarySA(n)[row + 1]
+         [] c.op = "suffix_array_zigzag" ->           \* closed-form family (MC lemma ZigzagLemma)
+              /\ cfg.kind = "zigzag" /\ cfg.m >= 1
+              /\ Len(r.sa) = 2 * cfg.m + 1
+              /\ \A x \in 1..(2 * cfg.m + 1) : r.sa[x] = ZigzagSAat(cfg.m, x - 1)
          [] c.op = "suffix_array_int" -> cfg.kind = "int" /\ DenseInt(t) /\ IsValidSA(r.sa, t)
          [] c.op = "lcp" -> /\ SingleSentinel(t) /\ n >= 2
                             /\ IsPerm(c.a.sa, n)
